@@ -375,13 +375,13 @@ class Check:
 
     # -- helpers
     def q(self, quick, thorough):
-        """case count for the tier.  The thorough tier explores VERIF_THOROUGH_FACTOR (default 6) times as many cases as the quick tier with a
+        """case count for the tier.  The thorough tier explores VERIF_THOROUGH_FACTOR (default 4) times as many cases as the quick tier with a
         different random stream, capped by the monitor's own upper bound; raise the factor for a deeper soak."""
         if self.tier == 'quick':
             return quick
         if not isinstance(quick, int) or not isinstance(thorough, int) or thorough <= quick:
             return thorough
-        f = float(os.environ.get('VERIF_THOROUGH_FACTOR', '6'))
+        f = float(os.environ.get('VERIF_THOROUGH_FACTOR', '4'))
         return int(min(thorough, max(quick, quick * f)))
 
     def count(self, name, n=1):
